@@ -45,11 +45,12 @@ class Velocities(ProductSystem):
 
     def axes(self, base):
         return {"motion": ["random_like", "flow_d", "shear", "breathe", "rest"], "L": [3, 2, 4, 6], "times": ["equal", "unequal", "offset", "tiny", "huge"],
-                "vm0": VMAPS, "vm1": VMAPS, "vm2": VMAPS, "drop": [None, 1, 2], "b": ["velocity", None], "adim": [False, True], "norm": [1, 0, 2.5]}
+                "vm0": VMAPS, "vm1": VMAPS, "vm2": VMAPS, "drop": [None, 1, 2], "b": ["velocity", None], "adim": [False, True], "norm": [1, 0, 2.5],
+                "unit": [1.0, 1e3, 1e-3, 512.0]}
 
     def eval_config(self, base, cfg):
         at = c12.tissue_for(base[0], base[1])
-        cm = SC.make_cmap(["m", 0.05, 0.02], 0.2, (0, 0), 1.0, SC.extent_of(bases.get(base[0])))
+        cm = SC.make_cmap(["m", 0.05, 0.02], 0.2, (0, 0), cfg["unit"], SC.extent_of(bases.get(base[0])))
         pos = c12.junction_positions(at, cm)
         real = c12.real_junctions(at)
         P = [pos[j] for j in real]
